@@ -29,12 +29,15 @@ import (
 
 	abci "github.com/tendermint/tendermint/abci/types"
 	"github.com/tendermint/tendermint/config"
+	"github.com/tendermint/tendermint/crypto/ed25519"
+	"github.com/tendermint/tendermint/crypto/tmhash"
 	vg "github.com/tendermint/tendermint/internal/verifgen"
 	"github.com/tendermint/tendermint/libs/log"
 	"github.com/tendermint/tendermint/light"
 	"github.com/tendermint/tendermint/p2p"
 	p2pmocks "github.com/tendermint/tendermint/p2p/mocks"
 	tmstate "github.com/tendermint/tendermint/proto/tendermint/state"
+	tmproto "github.com/tendermint/tendermint/proto/tendermint/types"
 	tmversion "github.com/tendermint/tendermint/proto/tendermint/version"
 	sm "github.com/tendermint/tendermint/state"
 	"github.com/tendermint/tendermint/types"
@@ -462,7 +465,9 @@ func (p *c14Prov) Commit(_ context.Context, h uint64) (*types.Commit, error) {
 	if e.cmCode != 0 {
 		return nil, c14Err(e.cmCode)
 	}
-	return &types.Commit{Height: int64(h), BlockID: types.BlockID{Hash: e.commit}}, nil
+	return &types.Commit{Height: int64(h),
+		BlockID:    types.BlockID{Hash: e.commit, PartSetHeader: types.PartSetHeader{Total: 1, Hash: tmhash.Sum(e.commit)}},
+		Signatures: []types.CommitSig{types.NewCommitSigAbsent()}}, nil
 }
 func (p *c14Prov) State(_ context.Context, h uint64) (sm.State, error) {
 	e, ok := p.tbl[h]
@@ -473,11 +478,42 @@ func (p *c14Prov) State(_ context.Context, h uint64) (sm.State, error) {
 		return sm.State{}, c14Err(e.stCode)
 	}
 	return sm.State{
-		ChainID:         "c14",
-		Version:         tmstate.Version{Consensus: tmversion.Consensus{Block: 11, App: e.appV}},
-		LastBlockHeight: int64(h),
-		AppHash:         e.mark,
+		ChainID:                          "c14",
+		InitialHeight:                    1,
+		Version:                          tmstate.Version{Consensus: tmversion.Consensus{Block: 11, App: e.appV}},
+		LastBlockHeight:                  int64(h),
+		LastBlockID:                      types.BlockID{Hash: e.commit, PartSetHeader: types.PartSetHeader{Total: 1, Hash: tmhash.Sum(e.commit)}},
+		AppHash:                          e.mark,
+		LastValidators:                   c14StubVals(h),
+		Validators:                       c14StubVals(h + 1),
+		NextValidators:                   c14StubVals(h + 2),
+		LastHeightValidatorsChanged:      int64(h + 2),
+		ConsensusParams:                  c14StubParams(h + 1),
+		LastHeightConsensusParamsChanged: int64(h + 1),
 	}, nil
+}
+
+// what the stub "chain" has at a height: a validator set and consensus params that differ from
+// height to height (the bootstrap part reads them back from a real store by height)
+var c14StubValCache = map[uint64]*types.ValidatorSet{}
+
+func c14StubVals(h uint64) *types.ValidatorSet {
+	k := h % 7
+	if vs, ok := c14StubValCache[k]; ok {
+		return vs.Copy()
+	}
+	vs := types.NewValidatorSet([]*types.Validator{
+		types.NewValidator(ed25519.GenPrivKeyFromSecret([]byte("c14-stub-0")).PubKey(), int64(10+k)),
+		types.NewValidator(ed25519.GenPrivKeyFromSecret([]byte("c14-stub-1")).PubKey(), 10),
+	})
+	c14StubValCache[k] = vs
+	return vs.Copy()
+}
+
+func c14StubParams(h uint64) tmproto.ConsensusParams {
+	p := *types.DefaultConsensusParams()
+	p.Block.MaxBytes = int64(4000000 + h%1000)
+	return p
 }
 
 type c14Result struct {
@@ -594,7 +630,7 @@ func c14ErrCode(res c14Result) int {
 }
 
 // one generated history; directed > 0 selects a scripted scenario
-func c14SyncCase(t *testing.T, r *vg.Rand, directed int) (term, descr string, kind string, nontrivial bool) {
+func c14SyncCase(t *testing.T, r *vg.Rand, directed int) (term, descr string, kind string, nontrivial bool, bootTerm, bootDescr string) {
 	app := &c14App{req: make(chan c14Req), rep: make(chan c14Rep)}
 	prov := &c14Prov{tbl: map[uint64]c14ProvEntry{}}
 	var provTerms, provDescr []string
@@ -609,7 +645,7 @@ func c14SyncCase(t *testing.T, r *vg.Rand, directed int) (term, descr string, ki
 		}
 	}
 	for _, h := range heights {
-		e := c14ProvEntry{appHash: []byte{0xa0, byte(h)}, mark: []byte{0xb0, byte(h)}, commit: []byte{0xc0, byte(h)}, appV: uint64(1 + r.Intn(2))}
+		e := c14ProvEntry{appHash: []byte{0xa0, byte(h)}, mark: []byte{0xb0, byte(h)}, commit: tmhash.Sum([]byte{0xc0, byte(h)}), appV: uint64(1 + r.Intn(2))}
 		if directed == 0 {
 			switch m := r.Intn(30); m {
 			case 0, 1:
@@ -767,6 +803,22 @@ func c14SyncCase(t *testing.T, r *vg.Rand, directed int) (term, descr string, ki
 				}
 			}
 			finalTerm = vg.App("IDone", vg.Z(int64(code)), c14U(appv), vg.Hx(mark), vg.Z(lh), vg.Hx(cm))
+			// what node.startStateSync does with the state and commit SyncAny returned, on real
+			// stores; the "chain" is the stub provider's (pseudo light blocks h, h+1, h+2)
+			if code == 0 && y.res.commit != nil && lh >= 1 && lh < math.MaxInt64-4 {
+				h := uint64(lh)
+				var blocks []string
+				for z := h; z <= h+2; z++ {
+					var cmh, bid []byte
+					if z == h {
+						cmh, bid = y.res.commit.Hash(), y.res.commit.BlockID.Hash
+					}
+					blocks = append(blocks, vg.Tup(c14U(z), "0%Z", "11%Z", "0%Z", `""`, `""`, vg.Hx(bid), vg.Hx(cmh), vg.Hx(c14StubVals(z).Hash()),
+						vg.Hx(types.HashConsensusParams(c14StubParams(z)))))
+				}
+				bootTerm, bootDescr = c14BootCase(blocks, nil, y.res.state, y.res.commit, nil)
+				bootDescr = fmt.Sprintf("stub state provider: validator set of height z = {c14-stub-0: 10+z%%7, c14-stub-1: 10}, params Block.MaxBytes 4000000+z%%1000; the state and commit SyncAny returned for the snapshot of height %d; real state store + block store (MemDB); %s", h, bootDescr)
+			}
 			finalDescr = fmt.Sprintf("SyncAny returned class %d (err=%v panic=%v) state{App:%d AppHash:%x LastBlockHeight:%d} commit %x",
 				code, y.res.err, y.res.panicv, appv, mark, lh, cm)
 			break
@@ -965,7 +1017,7 @@ func c14SyncCase(t *testing.T, r *vg.Rand, directed int) (term, descr string, ki
 	}
 	return vg.App("CSync", vg.L(provTerms), vg.L(d.items)),
 		"state provider " + strings.Join(provDescr, " ") + "; ChunkFetchers=0; " + strings.Join(d.descr, "; "),
-		kind, nApply >= 2 && len(nVerdictKinds) >= 2
+		kind, nApply >= 2 && len(nVerdictKinds) >= 2, bootTerm, bootDescr
 }
 
 func c14MinKey(m map[int]bool) int {
@@ -1128,30 +1180,28 @@ var c14VerifyTable = []c14VerifyCase{
 func TestVerifC14Sync(t *testing.T) {
 	cs := vg.NewCases("C14", "c14_sync", "TM.C14.Exec")
 	root := vg.NewRand(vg.Seed())
-	for directed := 1; directed <= 4; directed++ {
-		id := cs.NextID()
-		if !cs.Want(id) {
-			continue
+	one := func(rr *vg.Rand, directed int, nontrivialAlways bool) {
+		id, idBoot := cs.NextID(), cs.NextID()
+		if !cs.Want(id) && !cs.Want(idBoot) {
+			return
 		}
-		term, descr, kind, _ := c14SyncCase(t, root.Fork(uint64(1000000+directed)), directed)
-		cs.Add(id, kind, true, term, descr)
+		term, descr, kind, nt, bootTerm, bootDescr := c14SyncCase(t, rr, directed)
+		if cs.Want(id) {
+			cs.Add(id, kind, nt || nontrivialAlways, term, descr)
+		}
+		if bootTerm != "" && cs.Want(idBoot) {
+			cs.Add(idBoot, "sync-boot", false, bootTerm, bootDescr)
+		}
+	}
+	for directed := 1; directed <= 4; directed++ {
+		one(root.Fork(uint64(1000000+directed)), directed, true)
 	}
 	for i := range c14VerifyTable {
-		id := cs.NextID()
-		if !cs.Want(id) {
-			continue
-		}
-		term, descr, kind, _ := c14SyncCase(t, root.Fork(uint64(2000000+i)), 100+i)
-		cs.Add(id, kind, false, term, descr)
+		one(root.Fork(uint64(2000000+i)), 100+i, false)
 	}
 	n := vg.Scale(240, 20000)
 	for k := 0; k < n; k++ {
-		id := cs.NextID()
-		if !cs.Want(id) {
-			continue
-		}
-		term, descr, kind, nt := c14SyncCase(t, root.Fork(uint64(k)), 0)
-		cs.Add(id, kind, nt, term, descr)
+		one(root.Fork(uint64(k)), 0, false)
 	}
 	if err := cs.Write(); err != nil {
 		t.Fatal(err)
